@@ -112,7 +112,9 @@ theorem lockWStart_eff (s : Mx) (t : Tid) (m : Mode) :
     (∀ u, u ≠ t → (u ∈ (lockWStart s t m).1.exec ↔ u ∈ s.exec)) := by
   unfold lockWStart
   split
-  · split <;> simp
+  · split
+    · simp
+    · split <;> simp
   · split
     · simp; intro u hu; simp [hu]
     · split
